@@ -1,6 +1,7 @@
 package harness
 
 import (
+	"runtime"
 	"strings"
 	"crypto/sha256"
 	"encoding/hex"
@@ -107,6 +108,10 @@ func execute(t *testing.T, sc *sim.Scenario, keep bool) *sim.Outcome {
 		// its own subtest: the testing package fails (and ends) a test during which the race
 		// detector fired; the worker must carry on with the next run
 		var out *sim.Outcome
+		if sc.Property != "C14" {
+			// free-running families of other properties need goroutines to really overlap
+			defer runtime.GOMAXPROCS(runtime.GOMAXPROCS(8))
+		}
 		t.Run("free", func(t *testing.T) { sim.ExecuteFree(t, sc, &out) })
 		if out == nil || out.W == nil {
 			out = &sim.Outcome{Sc: sc, W: sim.NewWorld(sc, false), Deadlock: "free-running run ended abnormally"}
